@@ -129,7 +129,7 @@ class C09(Spec):
             rid = w.url(host, "/notes/r%d" % i)
             author = alice if host == ha else bob_b
             note = {"type": "Note", "id": rid, "content": "reply %d" % i, "inReplyTo": me, "attributedTo": author}
-            kind = rng.choice(["good", "good", "other-parent", "near-parent", "near-parent", "no-parent", "foreign-author", "author-no-id", "tombstone", "not-a-post", "missing", "parent-stub",
+            kind = rng.choice(["good", "good", "other-parent", "near-parent", "near-parent", "no-id", "no-parent", "foreign-author", "author-no-id", "tombstone", "not-a-post", "missing", "parent-stub",
                                "author-list", "author-list", "author-list"])
             genuine = False
             if kind == "good":
@@ -138,6 +138,9 @@ class C09(Spec):
                 note["inReplyTo"] = other
             elif kind == "near-parent":
                 note["inReplyTo"] = rng.choice(near)
+            elif kind == "no-id":
+                # a reply that does not say who it is, by an author who does: "forged creators", an error item
+                del note["id"]
             elif kind == "no-parent":
                 del note["inReplyTo"]
             elif kind == "foreign-author":
